@@ -86,8 +86,13 @@ func genOrigin(g *prng.R) c06Case {
 				h = "remote.example"
 			}
 		}
-		classes = append(classes, class)
 		id := fmt.Sprintf("https://%s/notes/%d", h, i)
+		if g.Chance(1, 10) {
+			// an object id without an authority part names no host at all
+			class = "no-authority"
+			id = pick(g, fmt.Sprintf("urn:uuid:6ba7b810-9dad-11d1-80b4-00c04fd43%03d", i), fmt.Sprintf("tag:remote.example,2026:note-%d", i))
+		}
+		classes = append(classes, class)
 		sc.Store[id] = withCtx(note(id, M{"content": "stored"}))
 		embedded := g.Bool()
 		if typ == "Update" {
@@ -108,7 +113,26 @@ func genOrigin(g *prng.R) c06Case {
 			expect = "reject"
 		}
 	}
-	act := M{"type": typ, "id": fmt.Sprintf("https://%s/act/%d", actHost, g.Intn(10000)), "actor": carol(), "object": objs}
+	actID := fmt.Sprintf("https://%s/act/%d", actHost, g.Intn(10000))
+	if g.Chance(1, 8) {
+		// an activity id without an authority part (legal: any absolute IRI
+		// is an id) has no host, so no object on a real host shares it
+		actID = pick(g, fmt.Sprintf("urn:uuid:6ba7b810-9dad-11d1-80b4-00c04fd4%04d", g.Intn(10000)), fmt.Sprintf("tag:remote.example,2026:act-%d", g.Intn(10000)), fmt.Sprintf("https:/act/%d", g.Intn(10000)))
+		actHost = ""
+		expect = "reject"
+		for _, c := range classes {
+			if c == "no-authority" {
+				// neither has a host: "same host" is not defined, either outcome is accepted
+				expect = "either"
+			}
+		}
+		for _, c := range classes {
+			if c != "no-authority" {
+				expect = "reject"
+			}
+		}
+	}
+	act := M{"type": typ, "id": actID, "actor": carol(), "object": objs}
 	sc.Requests = []sim.Request{sim.PostInboxReq(aliceIn(), withCtx(act))}
 	sc.Cfg.FedWrapped = true
 	return c06Case{Kind: typ, Sc: sc, Expect: expect, Info: M{"host_classes": classes, "activity_host": actHost}}
